@@ -1617,6 +1617,27 @@ def generate_solve(src: Path) -> str:
     sig = dict(lean="x", params=[("self", f"RatioCfg {A}"), ("sample_var", A), ("sample_count", A), ("effect_size", A),
                                  ("power", A)], ret=A, prims=True, mod="Solve")
     branches = {}
+    # an `if / elif / elif` chain over mutually exclusive None-patterns is the same as the three separate `if`s
+    flat: list[ast.stmt] = []
+    for st in fn.body:
+        chain = []
+        cur = st
+        while isinstance(cur, ast.If):
+            chain.append(cur)
+            if len(cur.orelse) == 1 and isinstance(cur.orelse[0], ast.If):
+                cur = cur.orelse[0]
+            else:
+                break
+        if len(chain) > 1 and not chain[-1].orelse:
+            pats = [_none_pattern(c.test) for c in chain]
+            exclusive = all(p is not None for p in pats) and all(
+                any(k in q and p[k] != q[k] for k in p) for i_, p in enumerate(pats) for q in pats[i_ + 1:])
+            if exclusive:
+                flat += [ast.If(test=c.test, body=c.body, orelse=[]) for c in chain]
+                continue
+        flat.append(st)
+    fn = ast.FunctionDef(name=fn.name, args=fn.args, body=flat, decorator_list=fn.decorator_list, returns=fn.returns,
+                         type_comment=None, lineno=fn.lineno, col_offset=0, type_params=getattr(fn, "type_params", []))
     for st in fn.body:
         if not isinstance(st, ast.If):
             continue
